@@ -23,7 +23,7 @@ RULE = ('Case = a fresh _Configuration() (argv neutralised; optionally construct
         'inline values; wrapped function loads, resets, nests another save_and_restore, returns or raises Exception / KeyboardInterrupt / SystemExit / ThreadTerminationError).  Oracle = three-dict reference '
         'model (declarations, loaded, flags): after EVERY op, for every key: conf[k], getattr(conf,k), k in conf, holder.value and '
         '_asdict().get(k) agree with the model (value or the specific exception); rejected ops raise the documented exception; '
-        'save_and_restore restores exactly the loaded dict present at call time also on exception; reset keeps flags and re-loads '
+        'save_and_restore restores exactly the loaded dict present at call time also on exception; (second domain, on the process-wide CONF) histories of load / reset / save_and_restore scopes with executions of ONE Test object in between: metadata[\'config\'] of every record equals the configuration at that moment; reset keeps flags and re-loads '
         'the config file.  Non-trivial = a read of a key having >=2 of {flag, loaded, default}, or a restore after an inner load, or '
         'a reset with a config file; distinct by canonical case.')
 ASSUMPTIONS = ['--config-value strings are chosen from a table whose YAML parse is known, so the model does not depend on yaml.']
@@ -278,6 +278,116 @@ def check(case):
   return r
 
 
+# ------------------------------------------------------------------ the snapshot stored in test metadata (global CONF)
+_SNAP = {'n': 0}
+
+
+def _snap_phase(test):
+  pass
+
+
+def check_snapshot(case):
+  """case = {'snap_ops': [op...]}; op = ['load', {key: value}] | ['reset'] | ['run'] | ['scope', {key: value}, [op...], raises].
+
+  Works on the process-wide CONF that Test.execute() snapshots: three keys declared under a fresh prefix (a, c: no default;
+  b: default 5), a history of loads / resets / save_and_restore scopes, and executions of ONE Test object in between.
+  Oracle: metadata['config'] of each record, restricted to the three keys, equals the model (key present iff it has a
+  value, with that value) and agrees with item access and `in`.
+  """
+  r = CaseResult()
+  htf = ohtf.reset_case()
+  from openhtf.util import configuration  # pylint: disable=g-import-not-at-top
+  conf = configuration.CONF
+  _SNAP['n'] += 1
+  pre = 'vfsnap%d_%d_' % (os.getpid(), _SNAP['n'])
+  keys = {'a': pre + 'a', 'b': pre + 'b', 'c': pre + 'c'}
+  conf.declare(keys['a'])
+  conf.declare(keys['b'], default_value=5)
+  conf.declare(keys['c'])
+  test = htf.Test(_snap_phase)
+  got = []
+  test.add_output_callbacks(got.append)
+  state = {'runs': 0, 'unset_after_set': False}
+
+  def expect(loaded):
+    out = {}
+    for short, full in keys.items():
+      if short in loaded:
+        out[full] = loaded[short]
+      elif short == 'b':
+        out[full] = 5
+    return out
+
+  def run_ops(ops_, loaded, ever):
+    for op in ops_:
+      if op[0] == 'load':
+        conf.load(**{keys[k]: copy.deepcopy(v) for k, v in op[1].items()})
+        loaded.update(op[1])
+        ever.update(op[1])
+      elif op[0] == 'reset':
+        conf.reset()
+        loaded.clear()
+      elif op[0] == 'run':
+        n0 = len(got)
+        test.execute(test_start=lambda: 'dut')
+        state['runs'] += 1
+        if len(got) != n0 + 1:
+          r.bad('C20/snapshot/no-record', 'run %d produced no record' % state['runs'])
+          return
+        snap = got[-1].metadata.get('config', {})
+        mine = {k: v for k, v in snap.items() if k.startswith(pre)}
+        want = expect(loaded)
+        if any(k in ever and k not in loaded for k in ('a', 'c')):
+          state['unset_after_set'] = True
+        if mine != want:
+          r.bad('C20/snapshot/metadata-config-disagrees', 'run %d: metadata config has %r, the configuration at that moment was %r (in conf: %r)' % (
+              state['runs'], mine, want, {k: (k in conf) for k in keys.values()}))
+          return
+        for full in keys.values():
+          if (full in conf) != (full in want):
+            r.bad('C20/snapshot/contains-disagrees', '%r in conf is %r, model %r' % (full, full in conf, full in want))
+      elif op[0] == 'scope':
+        saved = dict(loaded)
+
+        def inner():
+          loaded.update(op[1])
+          ever.update(op[1])
+          run_ops(op[2], loaded, ever)
+          if op[3]:
+            raise Inner('scope')
+
+        wrapped = conf.save_and_restore(**{keys[k]: copy.deepcopy(v) for k, v in op[1].items()})(inner)
+        try:
+          wrapped()
+        except Inner:
+          pass
+        loaded.clear()
+        loaded.update(saved)
+
+  try:
+    run_ops(case['snap_ops'], {}, {})
+  finally:
+    conf.reset()
+  r.nontrivial = state['runs'] >= 2 and state['unset_after_set']
+  r.classes = ['snapshot', 'runs:%d' % min(state['runs'], 4)] + (['unset-after-set'] if state['unset_after_set'] else [])
+  return r
+
+
+SNAP_VALS = st.one_of(st.integers(0, 9), st.sampled_from(['s', None, False, 1.5]), st.lists(st.integers(0, 3), max_size=2),
+                      st.dictionaries(st.sampled_from(['x', 'y']), st.integers(0, 3), max_size=2))
+SNAP_PAIRS = st.dictionaries(st.sampled_from(['a', 'b', 'c']), SNAP_VALS, max_size=3)
+
+
+def snap_ops(depth):
+  base = [st.tuples(st.just('load'), SNAP_PAIRS).map(list), st.just(['reset']), st.just(['run']), st.just(['run'])]
+  if depth < 2:
+    base.append(st.tuples(st.just('scope'), SNAP_PAIRS, st.lists(st.deferred(lambda: snap_ops(depth + 1)), max_size=4), st.booleans()).map(list))
+  return st.one_of(*base)
+
+
+SNAP_CASES = st.lists(snap_ops(0), min_size=2, max_size=12).map(lambda o: {'snap_ops': o})
+
+
 # ------------------------------------------------------------------ generators
 VALS = st.one_of(st.integers(-3, 9), st.sampled_from(['s', '', 'abc', None, True, False, 1.5]), st.lists(st.integers(0, 3), max_size=2),
                  st.dictionaries(st.sampled_from(['a', 'b']), st.integers(0, 3), max_size=2))
@@ -312,7 +422,10 @@ def cases(draw):
 
 def plan(tier, seed):
   n = 400 if tier == 'quick' else 8000
-  return [{'kind': 'hyp', 'name': 'hyp%d' % i, 'hseed': seed * 1000 + i, 'n': n} for i in range(16)]
+  jobs = [{'kind': 'hyp', 'name': 'hyp%d' % i, 'hseed': seed * 1000 + i, 'n': n} for i in range(16)]
+  for i in range(4):
+    jobs.append({'kind': 'snap', 'name': 'snap%d' % i, 'hseed': seed * 1000 + 500 + i, 'n': 60 if tier == 'quick' else 1500})
+  return jobs
 
 
 def run_job(job, acct):
@@ -321,8 +434,13 @@ def run_job(job, acct):
     from vf import runner  # pylint: disable=g-import-not-at-top
     runner.run_regress(sys.modules[__name__], job, acct)
     return
+  if job['kind'] == 'snap':
+    hyp.search(acct, SNAP_CASES, check_snapshot, seed=job['hseed'], max_examples=job['n'], known=known)
+    return
   hyp.search(acct, cases(), check, seed=job['hseed'], max_examples=job['n'], known=known)
 
 
 def replay(case):
+  if 'snap_ops' in case:
+    return check_snapshot(case).violations
   return check(case).violations
